@@ -14,7 +14,6 @@ Definition segment_FrameInvalid : Z := 0.
 Definition segment_FrameEntry : Z := 1.
 Definition segment_FrameIndex : Z := 2.
 Definition segment_FrameCommit : Z := 3.
-Definition segment_maxCommitBufSize : Z := 8388608.
 (* format.go:208 func padLen *)
 Definition segment_fn_padLen (n_ : Z) : Z := (Z.land (Z.sub segment_frameHeaderLen (Z.rem n_ segment_frameHeaderLen)) (7)).
 (* format.go:218 func encodedFrameSize *)
